@@ -1068,7 +1068,25 @@ def oracle(scn: list) -> list[str]:
     references.  Public API only."""
     a = run_scenario(scn, "plain")
     c = run_scenario(scn, "journal")
-    return compare_plain_journal(a, c)
+    return confirm(scn, compare_plain_journal(a, c))
+
+
+def _behaviour(o: dict) -> str:
+    return common.digest([o["results"], o["snaps"], o["final"], o.get("escaped_type")])
+
+
+def confirm(scn: list, bad: list[str], runs: int = 6) -> list[str]:
+    """Some IR operations are themselves nondeterministic from run to run (iteration over a frozenset of
+    nodes, hence over id()s, e.g. Graph.remove failing half way — C01/C06's business).  A journaled-vs-plain
+    difference is reported as interference only if it is systematic: over several runs of each kind the two
+    sets of behaviours are disjoint."""
+    if not any(b.startswith("interference") for b in bad):
+        return bad
+    plain = {_behaviour(run_scenario(scn, "plain")) for _ in range(runs)}
+    journ = {_behaviour(run_scenario(scn, "journal")) for _ in range(runs)}
+    if plain & journ:
+        return [b for b in bad if not b.startswith("interference")]
+    return bad
 
 
 def compare_plain_journal(a: dict, c: dict) -> list[str]:
@@ -1516,13 +1534,17 @@ def run(ck) -> None:
         d = run_scenario(scn, "traced", x)
         ck.count(3)
         bad = compare_plain_journal(a, c)
-        # the traced run must be the same run (so that its call forest describes the journaled run)
-        if d["results"] != c["results"] or d["snaps"] != c["snaps"]:
-            bad.append("interference: the run over the tracer differs from the journaled run")
-        ec = {j: [r[:3] for r in rows] for j, rows in c["entries"].items()}
-        ed = {j: [r[:3] for r in rows] for j, rows in d["entries"].items()}
-        if ec != ed:
-            bad.append("entries: journaled run and journaled-over-tracer run recorded different entries")
+        if any(b.startswith("interference") for b in bad):
+            bad = confirm(scn, bad)
+            if not any(b.startswith("interference") for b in bad):
+                ck.hist("scenario_exit", "nondeterministic-ir-operation(not compared)")
+        # the traced run is self-contained (its entries and its call forest come from the same run); when it
+        # is the same run as the journaled one, both must have recorded the same entries
+        if d["results"] == c["results"] and d["snaps"] == c["snaps"]:
+            ec = {j: [r[:3] for r in rows] for j, rows in c["entries"].items()}
+            ed = {j: [r[:3] for r in rows] for j, rows in d["entries"].items()}
+            if ec != ed:
+                bad.append("entries: journaled run and journaled-over-tracer run recorded different entries")
         for r in d["restore_bad"]:
             bad.append(f"not restored after journal {r['journal']} ({r['exit']} exit, tracer installed): {r['attributes']}")
         if bad:
